@@ -62,6 +62,13 @@ def run(ctx, scratch):
                     spec['coo'] = [e for e in spec['coo'] if e[0] < m and e[1] < m]
                     spec['shape'] = [m, m]
                     nr = nc = m
+                    if rng.random() < 0.35:
+                        # a square biadjacency that happens to be symmetric (B = B^T) is still a biadjacency once declared bipartite
+                        w = {}
+                        for e in spec['coo']:
+                            w.setdefault((min(e[0], e[1]), max(e[0], e[1])), e[2] if len(e) > 2 else 1)
+                        spec['coo'] = sorted([i, j, x] for (a_, b_), x in w.items() for (i, j) in {(a_, b_), (b_, a_)})
+                        fam = (fam or '') + '_symmetric'
                     if len(spec['coo']) < 2:
                         continue
                 # square cases (rep = 2, 5, 8, ...) cycle through row-only / column-only / both sides as well
@@ -100,7 +107,9 @@ def run(ctx, scratch):
                 if 'ok' not in a:
                     continue
                 skip = ()
-                if cases.degenerate(impl, name, s2, o2) or cases.degenerate(impl, name, spec, opts):
+                # (margin guard decided on the block adjacency alone: it is the same graph, and a biadjacency treated as another graph
+                #  must not be able to excuse itself through its own spectrum)
+                if cases.degenerate(impl, name, s2, o2):
                     ctx.margin_dropped += 1
                     continue
                 exp = split_block(b['ok'], nr, nc)
@@ -136,6 +145,13 @@ def run(ctx, scratch):
                     spec['coo'] = [e for e in spec['coo'] if e[0] < m and e[1] < m]
                     spec['shape'] = [m, m]
                     nr = nc = m
+                    if rng.random() < 0.35:
+                        # a square biadjacency that happens to be symmetric (B = B^T) is still a biadjacency once declared bipartite
+                        w = {}
+                        for e in spec['coo']:
+                            w.setdefault((min(e[0], e[1]), max(e[0], e[1])), e[2] if len(e) > 2 else 1)
+                        spec['coo'] = sorted([i, j, x] for (a_, b_), x in w.items() for (i, j) in {(a_, b_), (b_, a_)})
+                        fam = (fam or '') + '_symmetric'
                     if len(spec['coo']) < 2:
                         continue
                 optsT = cases.make_opts(rng, d, nc, nr, True, want_side=['row', 'col', 'both'][rep % 3])
